@@ -284,10 +284,10 @@ func (h *hist) apply(op string) string {
 			h.credit(id, h.cfg.newStack)
 		}
 		return fmt.Sprintf("%s(%s)", op, id)
-	case "addon", "addon-part":
+	case "addon", "addon-part", "addon-busted":
 		var c []string
 		for _, p := range t.State.PlayerStates {
-			if op == "addon" || p.IsParticipated {
+			if op == "addon" || op == "addon-part" && p.IsParticipated || op == "addon-busted" && p.Bankroll == 0 {
 				c = append(c, p.PlayerID)
 			}
 		}
